@@ -40,6 +40,10 @@ LEAVES = {
     "i1": T.leaf("Index", "less_than", 2),
     "vn": T.leaf("Value", "null"),   # an ordinary always-true condition: NOT the null condition
 }
+MEMB = [T.leaf("Value", "in_", [1, 2]), T.leaf("Value", "in_", [3, 5, "a"]), T.leaf("Value", "not_in", [1, 2]), T.leaf("Value", "not_in", [2, 3]),
+        T.leaf("Key", "in_", ["a", "b"]), T.leaf("Key", "in_", ["c", 1]), T.leaf("Key", "not_in", ["a"]), T.leaf("Index", "in_", [0, 1]),
+        T.leaf("Index", "in_", [2, 4]), T.leaf("Index", "not_in", [0]), T.leaf("Value", "in_range", 1, 3), T.leaf("Value", "in_range", 2, 6),
+        T.leaf("Value", "keys_contain_any_of", "a"), T.leaf("Value", "keys_contain_any_of", "k")]
 OPS = {"and": operator.and_, "or": operator.or_, "xor": operator.xor}
 CLS = {"and": C.ConditionAnd, "or": C.ConditionOr, "xor": C.ConditionXor}
 LIST_DOCS = [[1, 2, 3, 5, "a"], [3], [None, [1], {"a": 1}, 0.5]]
@@ -67,8 +71,8 @@ def spec_of(t):
     if t[0] == "null":
         return {}
     if t[0] == "leaf":
-        _, cls, call, args, kwargs = t
-        return {"%s.%s" % (T.SPEC_LABEL[cls], call): fresh(args[0]) if args else None}
+        from mc import specs as S
+        return S.cond_spec(t)
     return {t[0]: [spec_of(t[1]), spec_of(t[2])]}
 
 
@@ -139,7 +143,7 @@ def units(tier):
     n = len(trees(depth))
     chunk = 40 if tier == "quick" else 400
     u = [["T", way, i, min(i + chunk, n)] for way in WAYS for i in range(0, n, chunk)]
-    u += [["N", 0], ["PREP"]] + [["NL", op] for op in OPS]
+    u += [["N", 0], ["PREP"], ["MEMB"]] + [["NL", op] for op in OPS]
     hist_depth = 2 if tier == "quick" else 3
     # H part: one unit per first transition (prefix partition)
     u += [["H", hist_depth, i] for i in range(len(h_menu(len(h_initial_terms()))))]
@@ -154,6 +158,11 @@ def run_unit(unit, tier):
         for i in range(lo, hi):
             check_tree(res, ts[i], way, key=("T", way, i))
         res.sample({"kind": "T", "tree": ts[lo], "way": way})
+    elif unit[0] == "MEMB":
+        # membership / range / key-set leaves (list arguments the condition keeps) in every pair and operator
+        for i, (op, a, b) in enumerate(itertools.product(OPS, MEMB, MEMB)):
+            check_tree(res, (op, a, b), "operator", key=("MEMB", i))
+            check_tree(res, (op, a, b), "spec", key=("MEMB", i, "spec"))
     elif unit[0] == "PREP":
         for i, t in enumerate(prep_trees()):
             for way in ("operator", "spec"):
@@ -256,10 +265,65 @@ def check_tree(res, t, way, key, docs_override=None):
             res.violation("reference:%s" % way, "%s on %r differs from the reference model" % (T.show(t), doc), case,
                           observed=got, expected=want_abs)
             return
+        # the other way of asking: test_all is "every item satisfies it"
+        res.count("transitions")
+        try:
+            ta = c.test_all(fresh(doc))
+        except BaseException as e:
+            res.violation("test_all:%s:%s" % (way, type(e).__name__), "%s.test_all(%r) raised %r" % (T.show(t), doc, e), case,
+                          observed=repr(e))
+            return
+        if ta is not all(got):
+            res.violation("test_all:%s" % way, "%s.test_all(%r) is %r although the per-item results are %r" % (T.show(t), doc, ta, got),
+                          case, observed=ta, expected=all(got))
+            return
         res.count("validated")
         res.outcome(tuple(got))
+    if nontrivial and way == "operator" and not check_operands_intact(res, t, docs, case):
+        return
     if nontrivial:
         res.count("nontrivial")
+
+
+def check_operands_intact(res, t, docs, case):
+    """Build the two operands as objects of their own (with argument lists the caller still holds), combine them, and
+    look at them again: same snapshot, same argument objects, same filter results, and still combinable."""
+    from mc.snapshot import snap
+    try:
+        a, b = T.build_cond(t[1]), T.build_cond(t[2])
+    except BaseException:
+        return True
+    before = (snap(a), snap(b))
+    obs = [[_res(x, d) for d in docs] for x in (a, b)]
+    res.count("transitions", 2)
+    try:
+        c = OPS[t[0]](a, b)
+        c2 = OPS[t[0]](a, b)        # the same operands combined a second time
+        rc = [_res(c, d) for d in docs]
+        rc2 = [_res(c2, d) for d in docs]
+    except BaseException as e:
+        res.violation("operands:combine-raises:%s" % type(e).__name__, "combining the operands of %s (twice) raised %r" % (T.show(t), e),
+                      case, observed=repr(e))
+        return False
+    if (snap(a), snap(b)) != before:
+        res.violation("operands:changed", "building %s changed one of its operands: %r / %r" % (T.show(t), a, b), case,
+                      observed=(repr(a), repr(b)), expected=(T.show(t[1]), T.show(t[2])))
+        return False
+    if [[_res(x, d) for d in docs] for x in (a, b)] != obs:
+        res.violation("operands:behaviour", "after building %s an operand filters differently" % T.show(t), case)
+        return False
+    if rc != rc2:
+        res.violation("operands:second-combination", "combining the same two operands a second time gives a condition that filters "
+                      "differently: %s" % T.show(t), case, observed=rc2, expected=rc)
+        return False
+    return True
+
+
+def _res(c, doc):
+    try:
+        return tuple(c.filter(fresh(doc)).result)
+    except BaseException as e:
+        return "raises " + type(e).__name__
 
 
 def check_nary(res, op, names):
